@@ -45,8 +45,6 @@ def scatter(chk, P):
             iv, c = _loop_var(f, h)
             if not iv or not isinstance(c, list) or c[1] != "<":
                 continue
-            if not sx_find(c[3], lambda y: y[0] == "call" and y[1].endswith("::size")):
-                continue
             ws = [e for b in body for e in f.blocks[b]["ev"] if ev_write(e) and ev_write(e)[1] == "=" and
                   bool(sx_find(ev_write(e)[0], lambda y: y[0] == "mem" and y[2].endswith("::" + lst)))]
             if ws:
@@ -56,8 +54,20 @@ def scatter(chk, P):
         h, body, iv, c, w = hit
         d0 = [d for _, _, d in f.events(lambda q: q["k"] == "decl" and q["var"] == iv)]
         ok0 = any(_lit(d.get("init"), ("0",)) for d in d0) and _steps(f, body, iv) == ["++"]
-        bound_ok = bool(sx_find(c[3], lambda y: y[0] == "mem" and y[2].endswith("::" + lst))) or (lst == "presUDot" and bool(sx_find(c[3], lambda y: y[0] == "var")))
-        chk.judge(ok0 and bound_ok, "SCATTER", lst + ":whole-list", "%s:%d" % (f.file, w["line"]), "loop %s from 0 while %s, step %s" % (iv, sx_str(c), _steps(f, body, iv)))
+        # the bound is the length of THIS list: list.size(), the instance cache's getTotalNum<List>(), or (prescribed) the equally long pool handed in
+        bound = c[3]
+        for _ in range(2):
+            bv = _strip(bound)
+            if isinstance(bv, list) and bv[:1] == ["var"]:        # a named count: follow it to what it was initialised with
+                ds = [d for _, _, d in f.events(lambda q, v_=bv[1]: q["k"] == "decl" and q["var"] == v_ and isinstance(q.get("init"), list))]
+                if len(ds) == 1:
+                    bound = ds[0]["init"]
+        getter = "getTotalNum" + lst[0].upper() + lst[1:]
+        bound_ok = bool(sx_find(bound, lambda y: y[0] == "mem" and y[2].endswith("::" + lst))) or \
+            bool(sx_find(bound, lambda y: y[0] == "call" and y[1].split("::")[-1] == getter)) or \
+            (lst == "presUDot" and bool(sx_find(bound, lambda y: y[0] == "call" and y[1].endswith("::size") and var_of(y[2]) in [p_[0] for p_ in f.d["params"]])))
+        chk.judge(ok0 and bound_ok, "SCATTER", lst + ":whole-list", "%s:%d" % (f.file, w["line"]),
+                  "loop %s from 0 while %s (bound %s), step %s: the bound must be the length of %s itself" % (iv, sx_str(c), sx_str(bound)[:60], _steps(f, body, iv), lst))
         lhs, rhs = ev_write(w)[0], ev_write(w)[2]
         okidx = bool(sx_find(lhs, lambda y: y[0] in ("opc", "idx") and len(y) > 3 and bool(sx_find(y[2], lambda z: z[0] == "mem" and z[2].endswith("::" + lst))) and _strip(y[3]) == ["var", iv] or
                              (y[0] == "call" and y[1].endswith("operator[]") and bool(sx_find(y, lambda z: z[0] == "mem" and z[2].endswith("::" + lst))) and bool(sx_find(y, lambda z: z == ["var", iv])))))
